@@ -1935,3 +1935,59 @@ mod test {
         );
     }
 }
+
+#[cfg(redb_verif)]
+impl TransactionalMemory {
+    /// Verification hook: read-only copy of the allocator, root and unpersisted state
+    pub(crate) fn verif_mem_state(&self) -> crate::verif_types::VerifMemState {
+        fn root(h: Option<BtreeHeader>) -> crate::verif_types::VerifRoot {
+            h.map(|h| (u64::from_le_bytes(h.root.to_le_bytes()), h.checksum, h.length))
+        }
+        fn page(p: &PageNumber) -> u64 {
+            u64::from_le_bytes(p.to_le_bytes())
+        }
+        let mut result = crate::verif_types::VerifMemState::default();
+        {
+            let state = self.state.lock().unwrap();
+            let layout = state.header.layout();
+            result.page_size = state.header.page_size();
+            result.region_max_pages = layout.full_region_layout().num_pages();
+            result.num_regions = layout.num_regions();
+            result.layout_len = layout.len();
+            result.allocators_loaded = state.allocators.is_some();
+            if let Some(allocators) = state.allocators.as_ref() {
+                result.region_allocators = allocators
+                    .region_allocators
+                    .iter()
+                    .map(BuddyAllocator::to_vec)
+                    .collect();
+                result.region_tracker = allocators.region_tracker.to_vec();
+            }
+            result.latest_data_root = root(state.latest_slot().user_root);
+            result.latest_system_root = root(state.latest_slot().system_root);
+            result.latest_transaction_id = state.latest_slot().transaction_id.raw_id();
+            result.durable_data_root = root(state.header.primary_slot().user_root);
+            result.durable_system_root = root(state.header.primary_slot().system_root);
+            result.durable_transaction_id = state.header.primary_slot().transaction_id.raw_id();
+            result.read_from_secondary = state.read_from_secondary;
+        }
+        result.needs_repair = self.needs_repair.load(Ordering::Acquire);
+        {
+            let unpersisted = self.unpersisted.lock().unwrap();
+            result.unpersisted_pages = unpersisted.pages.iter().map(page).collect();
+            result.unpersisted_allocations = unpersisted
+                .allocations
+                .iter()
+                .map(|(k, v)| (k.raw_id(), v.iter().map(page).collect()))
+                .collect();
+            result.unpersisted_data_freed = unpersisted
+                .data_freed
+                .iter()
+                .map(|(k, v)| (k.raw_id(), v.iter().map(page).collect()))
+                .collect();
+            result.post_commit_allocations =
+                unpersisted.post_commit_allocations.iter().map(page).collect();
+        }
+        result
+    }
+}
